@@ -23,6 +23,7 @@ mod c_context;
 mod c_shape;
 mod c_solver;
 mod c_render;
+mod c_tree;
 mod c_deriv;
 mod helpers;
 
@@ -98,6 +99,7 @@ pub fn run(contract: &str, thorough: bool, seed: u64) -> Report {
         "interp_bulk" => c_interp::interp_bulk(thorough),
         "interp_interval" => c_interp::interp_interval(thorough),
         "interval_sweep" => c_interp::interval_sweep(thorough),
+        "tree_clauses" => c_tree::tree_clauses(thorough, seed),
         "flatten" => c_flatten::flatten(thorough, seed),
         "alloc_cex" => c_alloc::alloc_cex(thorough, seed),
         "alloc_small_n" => c_alloc::alloc_small_n(thorough, seed),
@@ -136,6 +138,7 @@ fn replay(v: &serde_json::Value) -> i32 {
         "interp_point" | "interp_bulk" | "interp_interval" => c_interp::replay(v),
         "jit_bulk_guard" => c_jit::guard_replay(v),
         "interval_sweep" => c_interp::sweep_replay(v),
+        "tree_clauses" => c_tree::replay(v),
         "jit_point" | "jit_bulk" | "jit_interval" | "jit_interval_valid" | "jit_grad" => c_jit::replay(v),
         "trace_vm" | "jit_trace" => c_trace::replay(v),
         "simplify_sem" => c_simplify::replay(v),
